@@ -338,6 +338,9 @@ impl<'p> Interp<'p> {
                         let V::List(o) = &args[0] else { panic!() };
                         let mut v: Vec<V> = l.borrow().clone();
                         v.extend(o.borrow().iter().cloned());
+                        if v.len() > 4096 {
+                            return Err(Ctl::Stop(Stop::Fuel));
+                        }
                         Ok(V::list(v))
                     }
                     "join" => {
@@ -504,7 +507,15 @@ impl<'p> Interp<'p> {
                 _ => {
                     let a = self.expr(l)?;
                     let b = self.expr(r)?;
-                    Self::arith(*op, &e.ty, &a, &b).map_err(Ctl::Stop)
+                    let v = Self::arith(*op, &e.ty, &a, &b).map_err(Ctl::Stop)?;
+                    // values that double in loops would make a run arbitrarily
+                    // expensive: treat oversized values like exhausted fuel
+                    match &v {
+                        V::Str(s) if s.len() > (1 << 16) => return Err(Ctl::Stop(Stop::Fuel)),
+                        V::List(l) if l.borrow().len() > 4096 => return Err(Ctl::Stop(Stop::Fuel)),
+                        _ => {}
+                    }
+                    Ok(v)
                 }
             },
             EK::If(c, t, el) => {
@@ -638,6 +649,9 @@ impl<'p> Interp<'p> {
                             s.push_str(&fmt_to_string(&v).expect("formattable"));
                         }
                     }
+                }
+                if s.len() > (1 << 16) {
+                    return Err(Ctl::Stop(Stop::Fuel));
                 }
                 Ok(V::Str(s))
             }
